@@ -136,7 +136,11 @@ fn id_of_path(p: &std::path::Path) -> Option<u8> {
 #[derive(Clone, Copy, Debug, PartialEq)]
 enum FsErrAt {
     Manifest,
+    /// request i was read completely; the file operation behind its answer failed: no answer
     Request(usize),
+    /// requests 0..i were answered; the failing operation came before request i was read
+    /// (e.g. an implementation that opens all files right after the acknowledgement)
+    BeforeRequest(usize),
     /// cannot be attributed to a request boundary (the client's cursor was elsewhere)
     Unknown,
 }
@@ -335,12 +339,18 @@ pub fn run_plan(plan: &C11Plan, want_trace: bool) -> RunOut {
                     }
                 }
                 for _ in 0..3 {
-                    if stream.next().await.is_some() {
-                        rec.lock().unwrap().after_end += 1;
+                    use futures::FutureExt;
+                    match std::panic::AssertUnwindSafe(stream.next()).catch_unwind().await {
+                        Ok(Some(_)) => rec.lock().unwrap().after_end += 1,
+                        Ok(None) => {}
+                        Err(_) => {
+                            let _ = crate::framework::take_panic();
+                            break;
+                        }
                     }
                 }
             };
-            let (o, polls) = exec::run(fut, || idle_h.idle(), 50_000 + 40 * (total_answer_bytes + 4096));
+            let (o, polls) = exec::run(fut, || idle_h.idle(), 2_000_000 + 40 * (total_answer_bytes + 4096));
             (
                 match o {
                     Outcome::Done(()) => "done",
@@ -422,20 +432,29 @@ pub fn run_plan(plan: &C11Plan, want_trace: bool) -> RunOut {
                     (FsOpKind::Read, 3) => "fault.fs_read_interrupted",
                     (FsOpKind::Read, _) => "fault.fs_read_error",
                 });
-                fails.push(if f.cursor == 0 {
-                    FsErrAt::Manifest
+                if f.cursor == 0 {
+                    fails.push(FsErrAt::Manifest);
                 } else {
+                    // boundaries: 3 = behind the acknowledgement, then the end of each request
                     let mut off = 3u64;
-                    let mut at = FsErrAt::Unknown;
+                    let mut found = false;
+                    if f.cursor == off {
+                        fails.push(FsErrAt::BeforeRequest(0));
+                        found = true;
+                    }
                     for (i, r) in replies.iter().enumerate().take(plan.requests.len()) {
                         off += r.len() as u64;
                         if off == f.cursor {
-                            at = FsErrAt::Request(i);
+                            fails.push(FsErrAt::Request(i));
+                            fails.push(FsErrAt::BeforeRequest(i + 1));
+                            found = true;
                             break;
                         }
                     }
-                    at
-                });
+                    if !found {
+                        fails.push(FsErrAt::Unknown);
+                    }
+                }
             }
             FsKind::Short(_) => {
                 if f.bit {
@@ -452,12 +471,13 @@ pub fn run_plan(plan: &C11Plan, want_trace: bool) -> RunOut {
             if !written.is_empty() {
                 out.fail("traffic_without_files", sig.clone(), "no recognised file present, yet bytes were sent");
             }
+            // nothing to announce: an error or a clean end without items - never traffic, never a packet
             let n_err = rec.items.iter().filter(|i| i.res.is_err()).count();
-            if rec.items.len() != 1 || n_err != 1 || !rec.ended {
+            if rec.items.len() != n_err || n_err > 1 || !rec.ended {
                 out.fail(
                     "empty_directory",
                     sig.clone(),
-                    format!("no recognised file present: expected exactly one error, got {} item(s), {} error(s)", rec.items.len(), n_err),
+                    format!("no recognised file present: expected at most one error and nothing else, got {} item(s), {} error(s)", rec.items.len(), n_err),
                 );
             }
             return;
@@ -508,7 +528,7 @@ pub fn run_plan(plan: &C11Plan, want_trace: bool) -> RunOut {
                     out.fail("manifest_password", sig.clone(), format!("08 14 carries password {} instead of {}", crate::conn::hex(&p.pos), plan.password));
                 }
                 let mut got: Vec<(u8, u32)> = vec![];
-                let mut malformed = p.bmps.len() != 1;
+                let mut malformed = false;
                 for t in p.tlvs().unwrap_or_default() {
                     let ch = t.children();
                     let id = rc::find(ch, 0x1d).and_then(|x| x.prim_val()).filter(|v| v.len() == 1).map(|v| v[0]);
@@ -516,8 +536,9 @@ pub fn run_plan(plan: &C11Plan, want_trace: bool) -> RunOut {
                         .and_then(|x| x.prim_val())
                         .filter(|v| v.len() == 4)
                         .map(|v| u32::from_be_bytes([v[0], v[1], v[2], v[3]]));
-                    match (t.tag, id, size, ch.len()) {
-                        (0x2d, Some(id), Some(size), 2) => got.push((id, size)),
+                    // (further elements inside an entry are none of this property's business)
+                    match (t.tag, id, size) {
+                        (0x2d, Some(id), Some(size)) => got.push((id, size)),
                         _ => malformed = true,
                     }
                 }
@@ -545,6 +566,11 @@ pub fn run_plan(plan: &C11Plan, want_trace: bool) -> RunOut {
         }
         for (i, r) in plan.requests.iter().enumerate() {
             if error_expected {
+                break;
+            }
+            if fs_err == Some(FsErrAt::BeforeRequest(i)) {
+                // the failing file operation came before this request was read: it stays in the connection
+                error_expected = true;
                 break;
             }
             if end_off + replies[i].len() as u64 > avail {
@@ -594,6 +620,9 @@ pub fn run_plan(plan: &C11Plan, want_trace: bool) -> RunOut {
             }
         }
         let mut final_end = None;
+        if !error_expected && fs_err == Some(FsErrAt::BeforeRequest(plan.requests.len())) {
+            error_expected = true;
+        }
         if !error_expected {
             if end_off + replies[plan.requests.len()].len() as u64 > avail {
                 error_expected = true;
@@ -633,14 +662,12 @@ pub fn run_plan(plan: &C11Plan, want_trace: bool) -> RunOut {
             let (id, offset, payload) = (exp[0], &exp[1..5], &exp[5..]);
             let ok = (|| -> Option<bool> {
                 let p = Pkt::decode(a).ok()?;
-                if p.cf != (0x80, 0x00) || !p.pos.is_empty() || p.bmps.len() != 1 {
+                if p.cf != (0x80, 0x00) || !p.pos.is_empty() {
                     return Some(false);
                 }
                 let ts = p.tlvs()?;
-                if ts.len() != 1 || ts[0].tag != 0x2d {
-                    return Some(false);
-                }
-                let ch = ts[0].children();
+                let Some(entry) = ts.iter().find(|t| t.tag == 0x2d) else { return Some(false) };
+                let ch = entry.children();
                 let gid = rc::find(ch, 0x1d)?.prim_val()?;
                 let goff = rc::find(ch, 0x1e)?.prim_val()?;
                 let gpay: &[u8] = match rc::find(ch, 0x1c) {
@@ -650,8 +677,7 @@ pub fn run_plan(plan: &C11Plan, want_trace: bool) -> RunOut {
                     },
                     None => &[],
                 };
-                let extra = ch.iter().any(|t| ![0x1d, 0x1e, 0x1c].contains(&t.tag));
-                Some(gid == [id] && goff == offset && gpay == payload && !extra)
+                Some(gid == [id] && goff == offset && gpay == payload)
             })()
             .unwrap_or(false);
             if !ok {
